@@ -263,6 +263,12 @@ theorem andnot_cmpgt64_toNat (a b k : BitVec 64) :
   rw [cmpgt64_eq, mask_andnot_toNat]; unfold unsh ltN
   simp only [decide_eq_true_eq]
 
+/-- `srli_epi64(cmpgt_epi64(a, b), 32)`: the low-half constant 2^32 - 1 under the mask, without the `and` -/
+theorem cmpgt64_shr32_toNat (a b : BitVec 64) :
+    (cmpgt64 a b >>> 32).toNat = ltN (unsh b.toNat) (unsh a.toNat) 4294967295 0 := by
+  rw [ushr32_toNat, cmpgt64_toNat]; unfold ltN
+  split <;> rfl
+
 /-- the high half is already below 2^32 (`srli 32` feeding `mul_epu32` is the same as `movehdup` feeding it) -/
 theorem hi_mod_32 (x : BitVec 64) : x.toNat / 4294967296 % 4294967296 = x.toNat / 4294967296 := by
   have := x.isLt; omega
@@ -272,7 +278,7 @@ attribute [lane_nat] hi_mod_32 Nat.mod_mod BitVec.toNat_add BitVec.toNat_sub Bit
   sqmask_and_toNat ushr_toNat shl_toNat cmpgt64_toNat
   mul32_toNat hdup_mod ldup_toNat blend32_2_toNat shl33_or_and_toNat and_or_shl33_toNat shl32_or_and_toNat
   and_or_shl32_toNat
-attribute [lane_nat high] cmpgt32_shr_toNat cmpgt64_and_toNat and_cmpgt64_toNat andnot_cmpgt64_toNat
+attribute [lane_nat high] cmpgt32_shr_toNat cmpgt64_shr32_toNat cmpgt64_and_toNat and_cmpgt64_toNat andnot_cmpgt64_toNat
 
 /-! ### unsigned compare-and-select on one lane (AVX-512 mask registers), folded like `ltN` -/
 
